@@ -1,0 +1,137 @@
+//! Verification stepping API. Compiled only with `--cfg deventlab_d_engine_verif`.
+//!
+//! These methods call the very functions `Raft::run` calls; only the `select!`
+//! scheduling is replaced by the external harness.
+use super::*;
+
+#[derive(Debug, Clone)]
+pub struct VerifView {
+    pub node_id: u32,
+    pub role: i32,
+    pub term: u64,
+    /// (voted_for_id, voted_for_term, committed)
+    pub voted_for: Option<(u32, u64, bool)>,
+    pub commit_index: u64,
+    pub last_index: u64,
+    pub current_leader: Option<u32>,
+    pub noop_log_id: Option<u64>,
+    /// Lease validity for (current term, now_ms()) as the read paths evaluate it.
+    pub lease_valid_for_term: bool,
+    pub lease_valid_any: bool,
+    pub internal_pending: usize,
+    pub inbound_buffered: usize,
+}
+
+impl<T> Raft<T>
+where
+    T: TypeConfig,
+{
+    /// Run the role's tick exactly as the `tick` arm of `run()` does.
+    pub async fn verif_tick(&mut self) -> Result<()> {
+        let internal_event_tx = &self.internal_event_tx;
+        let event_tx = &self.event_tx;
+        self.role.tick(internal_event_tx, event_tx, &self.ctx).await
+    }
+
+    /// Push inbound events into the loop's buffer and process them like `run()` does
+    /// (including `merge_append_entries`).
+    pub async fn verif_inbound(
+        &mut self,
+        events: Vec<InboundEvent>,
+    ) -> Result<()> {
+        for e in events {
+            self.buffered_inbound_event.push_back(e);
+        }
+        self.process_inbound_events().await
+    }
+
+    /// Move everything currently in the internal event channel into the loop's buffer and
+    /// handle it (P2 arm + `process_internal_events`), repeatedly until quiescent.
+    /// Then handle inbound events that were re-queued by `ReprocessEvent`.
+    pub async fn verif_internal(&mut self) -> Result<usize> {
+        let mut n = 0;
+        loop {
+            while let Ok(ev) = self.internal_event_rx.try_recv() {
+                self.buffered_internal_event.push_back(ev);
+            }
+            if self.buffered_internal_event.is_empty() {
+                if self.buffered_inbound_event.is_empty() {
+                    break;
+                }
+                self.process_inbound_events().await?;
+                continue;
+            }
+            n += self.buffered_internal_event.len();
+            self.process_internal_events().await?;
+        }
+        Ok(n)
+    }
+
+    /// Handle at most one internal event (finer-grained stepping).
+    pub async fn verif_internal_one(&mut self) -> Result<bool> {
+        if self.buffered_internal_event.is_empty() {
+            if let Ok(ev) = self.internal_event_rx.try_recv() {
+                self.buffered_internal_event.push_back(ev);
+            }
+        }
+        match self.buffered_internal_event.pop_front() {
+            Some(ev) => {
+                let r = self.handle_internal_event(ev).await;
+                if let Err(e) = r {
+                    if e.is_fatal() {
+                        return Err(e);
+                    }
+                }
+                Ok(true)
+            }
+            None => Ok(false),
+        }
+    }
+
+    /// Push client commands and flush like the P3 arm + `process_client_cmds`.
+    pub async fn verif_client(
+        &mut self,
+        cmds: Vec<crate::ClientCmd>,
+    ) -> Result<()> {
+        for c in cmds {
+            self.role.push_client_cmd(c, &self.ctx);
+        }
+        self.process_client_cmds().await
+    }
+
+    pub fn verif_next_deadline(&self) -> tokio::time::Instant {
+        self.role.next_deadline()
+    }
+
+    pub fn verif_peer_index(
+        &self,
+        peer: u32,
+    ) -> (Option<u64>, Option<u64>) {
+        let st = self.role.state();
+        (st.next_index(peer), st.match_index(peer))
+    }
+
+    pub fn verif_view(&self) -> VerifView {
+        let st = self.role.state();
+        let lease = &st.shared_state().lease;
+        let now = crate::now_ms();
+        VerifView {
+            node_id: self.node_id,
+            role: self.role.as_i32(),
+            term: st.current_term(),
+            voted_for: st
+                .shared_state()
+                .hard_state
+                .voted_for
+                .map(|v| (v.voted_for_id, v.voted_for_term, v.committed)),
+            commit_index: st.commit_index(),
+            last_index: self.ctx.raft_log().last_entry_id(),
+            current_leader: st.shared_state().current_leader(),
+            noop_log_id: st.noop_log_id().ok().flatten(),
+            lease_valid_for_term: lease.is_valid_for_leader(st.current_term(), now),
+            lease_valid_any: lease.is_valid(now),
+            internal_pending: self.buffered_internal_event.len(),
+            inbound_buffered: self.buffered_inbound_event.len(),
+        }
+    }
+}
